@@ -82,4 +82,21 @@ theorem C11_shape : Gen.shape_receiverOwnsOnce = true ∧ Gen.shape_senderShared
     Gen.shape_setClosesMembers = true ∧ Gen.shape_regionReleases = true ∧ Gen.shape_everythingCloexec = true ∧
     Gen.shape_connectOwnsBeforeFallible = true := by decide
 
+/-- who owns a receiver's descriptor after `OsIpcReceiverSet::add`, given the kernel's answer to the registration -/
+inductive AddOwner | set | closedByReceiver | nobody
+deriving Repr, DecidableEq
+
+/-- `takeFirst`: the descriptor is taken out of the receiver before the (fallible) registration — the code before the repair (D21) -/
+def addOwner (takeFirst registerOk : Bool) : AddOwner :=
+  if registerOk then .set else if takeFirst then .nobody else .closedByReceiver
+
+/-- **C11_set_add_never_orphans** — whatever the kernel answers to the registration, the descriptor handed to `add` has an owner afterwards: the set,
+or the receiver (which is dropped on return and closes it) — for the order of the two statements regenerated from the source.
+Before the repair a refused registration left it owned by nobody (open for ever). -/
+theorem C11_set_add_never_orphans (registerOk : Bool) :
+    Gen.shape_setAddOwnsAfterRegister = true ∧ addOwner (!Gen.shape_setAddOwnsAfterRegister) registerOk ≠ .nobody := by
+  cases registerOk <;> decide
+
+example : addOwner true false = .nobody := by decide
+
 end C11
